@@ -15,6 +15,7 @@
 #include <stdlib.h>
 #include <string.h>
 #include <cgreen/internal/cgreen_time.h>
+#include <cgreen/internal/verif_hooks.h>
 
 #ifdef __ANDROID__
 #include "cgreen/internal/android_headers/androidcompat.h"
@@ -40,6 +41,7 @@ void run_test_in_its_own_process(TestSuite *suite, CgreenTest *test, TestReporte
     } else if (in_child_process()) {
         run_the_test_code(suite, test, reporter);
         send_reporter_completion_notification(reporter);
+        CGREEN_VERIF_POINT("after_completion");
         stop();
     } else {
         const int status = wait_for_child_process();
@@ -94,6 +96,7 @@ void run_specified_test_if_child(TestSuite *suite, TestReporter *reporter){
 }
 
 static void stop(void) {
+    CGREEN_VERIF_POINT("at_stop");
 #ifdef CGREEN_INTERNAL_WITH_GCOV
     if (1)
 #else
